@@ -592,6 +592,8 @@ class Interp(object):
                     pass
                 self._check_inv(spec, fr, None, label + ':invariant-preserved')
                 raise PathEnd()
+            for h in spec.exit_hints(self, fr):
+                self.path.assume(h)
             self.exec_block(st.orelse, fr)
             return
         n = 0
@@ -629,6 +631,8 @@ class Interp(object):
                     pass
                 self._check_inv(spec, fr, k + 1, label + ':invariant-preserved')
                 raise PathEnd()
+            for h in spec.exit_hints(self, fr):
+                self.path.assume(h)
             self.exec_block(st.orelse, fr)
             return
         it = self.iterate(self.eval(st.iter, fr))
